@@ -97,23 +97,54 @@ func checkReleaseGuard(c *engine.Ctx, rule string) {
 	for _, name := range pk.Types.Scope().Names() {
 		run := p.FuncOf(p.MethodObj("server/proxy", name, "Run"))
 		cls := p.FuncOf(p.MethodObj("server/proxy", name, "Close"))
-		if run == nil || cls == nil || len(engine.CallsTo(run, acqO)) == 0 {
+		if run == nil || cls == nil {
 			continue
 		}
-		// is every acquisition in Run under Group == ""?
-		guarded := true
-		for _, ac := range engine.CallsTo(run, acqO) {
-			q := &engine.PathQuery{Fn: run, Sink: engine.Is(ac)}
-			states, err := q.Run()
-			if err != nil || len(states) == 0 {
-				guarded = false
-				continue
-			}
-			for _, st := range states {
-				if v, k := groupEmpty(st); !(k && v) {
+		// is every acquisition in Run (or in a step split out of Run) under Group == ""?
+		guarded, acqs := true, 0
+		for _, g := range append([]*ssa.Function{run}, allAnon(run)...) {
+			for _, ac := range engine.CallsTo(g, acqO) {
+				acqs++
+				// the condition is looked for on the way to the acquisition, and — for a step of Run — on the way to the
+				// call of that step
+				sinks := []struct {
+					fn   *ssa.Function
+					sink ssa.Instruction
+				}{{g, ac}}
+				if g != run {
+					if gobj, _ := g.Object().(*types.Func); gobj != nil {
+						for _, gc := range engine.CallsTo(run, gobj) {
+							sinks = append(sinks, struct {
+								fn   *ssa.Function
+								sink ssa.Instruction
+							}{run, gc})
+						}
+					}
+				}
+				siteGuarded := false
+				for _, sk := range sinks {
+					q := &engine.PathQuery{Fn: sk.fn, Sink: engine.Is(sk.sink)}
+					states, err := q.Run()
+					if err != nil || len(states) == 0 {
+						continue
+					}
+					all := true
+					for _, st := range states {
+						if v, k := groupEmpty(st); !(k && v) {
+							all = false
+						}
+					}
+					if all {
+						siteGuarded = true
+					}
+				}
+				if !siteGuarded {
 					guarded = false
 				}
 			}
+		}
+		if acqs == 0 {
+			continue
 		}
 		if !guarded {
 			continue
@@ -823,7 +854,11 @@ func checkTruePortChain(c *engine.Ctx, rule string) {
 			continue
 		}
 		listens := 0
-		for _, call := range engine.CallsTo(f, netListen, resolveUDP) {
+		var lcalls []ssa.CallInstruction
+		for _, g := range append([]*ssa.Function{f}, allAnon(f)...) { // f and the steps split out of it
+			lcalls = append(lcalls, engine.CallsTo(g, netListen, resolveUDP)...)
+		}
+		for _, call := range lcalls {
 			listens++
 			n++
 			pa := portArgOfAddr(engine.CallArgs(call)[1])
@@ -883,19 +918,25 @@ func checkRemoteAddrAnswer(c *engine.Ctx) {
 	raF := field(c, "pkg/msg", "NewProxyResp", "RemoteAddr")
 	n := 0
 	if h != nil && reg != nil && regObj != nil && runObj != nil && raF != nil {
-		engine.ForEachInstr(h, func(in ssa.Instruction) {
-			st, ok := in.(*ssa.Store)
-			if !ok {
-				return
-			}
-			if fv, _ := engine.LoadedField(st.Addr); fv != raF {
-				return
-			}
-			n++
-			src := engine.Provenance(st.Val, engine.ProvOpts{NoArgs: true})
-			c.Check(src.HasCall(regObj) && len(src.Consts) <= 1, "server.Control.handleNewProxy", in.Pos(), len(src.Values), []string{"RemoteAddr: " + src.Summary()},
-				"the answer carries the address returned by RegisterProxy")
-		})
+		for _, hg := range append([]*ssa.Function{h}, allAnon(h)...) { // the handler, its closures and split-out steps
+			engine.ForEachInstr(hg, func(in ssa.Instruction) {
+				st, ok := in.(*ssa.Store)
+				if !ok {
+					return
+				}
+				if fv, _ := engine.LoadedField(st.Addr); fv != raF {
+					return
+				}
+				n++
+				src := engine.Provenance(st.Val, engine.ProvOpts{NoArgs: true})
+				localConsts := len(src.Consts)
+				if !src.HasCall(regObj) {
+					src = engine.DeepSources(c.P, st.Val) // the address may arrive through a helper's parameter
+				}
+				c.Check(src.HasCall(regObj) && localConsts <= 1, "server.Control.handleNewProxy", in.Pos(), len(src.Values), []string{"RemoteAddr: " + src.Summary()},
+					"the answer carries the address returned by RegisterProxy")
+			})
+		}
 		c.AllPaths("server.Control.RegisterProxy>remote-addr", engine.PathCheck{Fn: reg, Sink: engine.IsReturn, Pred: func(st *engine.PathState) string {
 			r := st.Sink.(*ssa.Return)
 			ev := st.Resolve(r.Results[1])
